@@ -161,7 +161,16 @@ def checkInputs (inputs : List (String × Val)) (fx : List (String × Sel)) : Li
     checkInput inputs fx pa
     checkInputs inputs fx r
 
-/-- `_validate_fixed_indices` (`_prepare.py:120-150`) -/
+/-- the axes some function maps over: the input indices of all MapSpecs (`mapped_over` in `_validate_fixed_indices`).  An axis
+    of the pipeline that is not among them exists only as an internal axis (generated inside a function, `internal_shape`):
+    its mask bit is `false` in every output that names it (`mspecShape`), so `_mask_fixed_axes` never looks at it. -/
+def mappedAxes (fs : List MFunc) : List String :=
+  fs.flatMap fun f => match f.mapspec with
+    | none => []
+    | some ms => ms.inputIndices
+
+/-- `_validate_fixed_indices` (`_prepare.py:152-202`, with the repair DF-C06-internal-axis: an axis no MapSpec maps over is
+    refused) -/
 def validateFixed (fs : List MFunc) (inputs : List (String × Val)) (fixed : Option (List (String × Sel))) : M Unit :=
   match fixed with
   | none => pure ()
@@ -170,6 +179,8 @@ def validateFixed (fs : List MFunc) (inputs : List (String × Val)) (fixed : Opt
     checkInputs inputs fx axes
     if fx.any (fun kv => !(knownAxes axes).contains kv.1) then throw (.value "got extra fixed_indices")
     if fx.any (fun kv => (reducedAxes fs axes).contains kv.1) then throw (.value "axis is reduced and cannot be in fixed_indices")
+    if fx.any (fun kv => !(mappedAxes fs).contains kv.1) then
+      throw (.value "axis is internal only (no function maps over it) and cannot be in fixed_indices")
 
 /-! ### one function on an existing store -/
 
